@@ -249,7 +249,11 @@ where
                 let (address, slot) = (*address, *slot);
                 scope.spawn(move || {
                     let _enrolled = crate::verif::rt::enroll(0);
-                    crate::verif::rt::pt2("cache_read_begin", crate::verif::rt::fnv(address.as_slice()), 0);
+                    crate::verif::rt::pt2(
+                        "cache_read_begin",
+                        crate::verif::rt::fnv(address.as_slice()),
+                        slot.saturating_to::<usize>(),
+                    );
                     view.storage_ref(address, slot).expect("backing store read")
                 })
             })
